@@ -5,9 +5,13 @@ package main
 
 import (
 	"bytes"
+	"encoding/json"
 	"fmt"
 	"io"
 	"net/http"
+	"os"
+	"os/exec"
+	"path/filepath"
 	"sort"
 	"strconv"
 	"strings"
@@ -16,6 +20,7 @@ import (
 	"time"
 
 	vegeta "github.com/tsenart/vegeta/v12/lib"
+	"vharness/attackctl"
 	"vharness/kit"
 	"vharness/run"
 )
@@ -89,6 +94,10 @@ func runC05(c *run.Ctx, s *kit.Summary) {
 	s.Rule = "attacks at unlimited rate with 1..256 workers and 200..5000 hits through a fake transport that records monotonic entry/exit instants; every result is a case; non-trivial = result of a run with >= 2 workers"
 	st := &kit.Stream{Name: "c05.hits"}
 	runs := c.N(60, 1500)
+	raceChild := os.Getenv("VH_C05_CHILD") == "race"
+	if raceChild {
+		runs = c.N(10, 200)
+	}
 	total := 0
 	for i := 0; i < runs; i++ {
 		cs := caseC05{Workers: uint64(1 << uint(r.Pick(9))), Hits: uint64(200 + r.Pick(c.N(3000, 5000))), Spin: r.Pick(3)}
@@ -200,4 +209,79 @@ func runC05(c *run.Ctx, s *kit.Summary) {
 	}
 	s.Extra["results_checked"] = total
 	st.Diff(c.Driver, s)
+	if !raceChild && c.Replay == "" {
+		raceRun(c, s)
+	}
+}
+
+// raceRun repeats a part of the stress in a build of this harness with the race detector (the property
+// quantifies over runs "with and without the race detector"): the same predicate is evaluated there; a
+// race report itself breaks the tie to the model (whose critical section presupposes race freedom).
+func raceRun(c *run.Ctx, s *kit.Summary) {
+	bin := filepath.Join(c.Work, "vh_c05_race")
+	cmd := exec.Command("go", "build", "-race", "-tags", "verif", "-o", bin, "./cmd/c05")
+	cmd.Dir = attackctl.HarnessDir()
+	cmd.Env = append(os.Environ(), "GOFLAGS=-mod=mod", "GOPROXY=off", "GOSUMDB=off", "GOTOOLCHAIN=local", "CGO_ENABLED=1")
+	if out, err := cmd.CombinedOutput(); err != nil {
+		s.Skipped["race_detector_build_failed"]++
+		s.Extra["race_detector"] = "not run: go build -race failed: " + err.Error() + ": " + tail(string(out), 600)
+		return
+	}
+	out := filepath.Join(c.Work, "race_summary.json")
+	logp := filepath.Join(c.Work, "race_report")
+	os.MkdirAll(filepath.Join(c.Work, "racework"), 0o755)
+	child := exec.Command(bin, "-seed", strconv.FormatInt(c.Seed+7, 10), "-tier", c.Tier, "-work", filepath.Join(c.Work, "racework"),
+		"-out", out, "-scale", strconv.FormatFloat(c.Scale, 'g', -1, 64), "-driver", c.Driver)
+	child.Env = append(os.Environ(), "VH_C05_CHILD=race", "GORACE=halt_on_error=0 exitcode=0 log_path="+logp)
+	if cout, err := child.CombinedOutput(); err != nil {
+		s.Diverge("c05.race_build", "stress in the -race build", err.Error()+": "+tail(string(cout), 800), "completes")
+		return
+	}
+	var cs kit.Summary
+	if b, err := os.ReadFile(out); err == nil {
+		json.Unmarshal(b, &cs)
+	}
+	for k, v := range cs.Dist {
+		s.CountN("race_build:"+k, v)
+	}
+	for _, v := range cs.Violations {
+		v.What = "(race build) " + v.What
+		s.Violate(v)
+	}
+	for _, d := range cs.Divergences {
+		s.Diverge("race_build:"+d.Stream, d.Op, d.Impl, d.Model)
+	}
+	s.Evaluations += cs.Evaluations
+	reports, _ := filepath.Glob(logp + ".*")
+	nrep, nown := 0, 0
+	for _, p := range reports {
+		b, _ := os.ReadFile(p)
+		for _, rep := range strings.Split(string(b), "==================") {
+			if !strings.Contains(rep, "WARNING: DATA RACE") {
+				continue
+			}
+			tops := attackctl.AccessFrames(rep)
+			own := len(tops) >= 2
+			for _, t := range tops {
+				if !strings.HasPrefix(t, "vharness/") && !strings.HasPrefix(t, "main.") {
+					own = false
+				}
+			}
+			if own {
+				nown++
+				continue
+			}
+			nrep++
+			s.Diverge("attack.race_free", "stress under the race detector; conflicting accesses: "+strings.Join(tops, " | "), tail(rep, 3000),
+				"no data race (the model's critical section presupposes a data-race-free hit path)")
+		}
+	}
+	s.Extra["race_detector"] = fmt.Sprintf("ran: %d results checked in the -race build, %d race reports (%d inside the harness itself, ignored)", cs.Evaluations, nrep, nown)
+}
+
+func tail(s string, n int) string {
+	if len(s) > n {
+		return s[len(s)-n:]
+	}
+	return s
 }
